@@ -368,11 +368,18 @@ Definition step_node_fn (v : variant) (cs : cfgs) (s : pair) (e : ev) (w : who) 
   | EIf w' k d => if who_eqb w w' then fst (handle_if v c n k d) else n
   | ESwLocal w' f => if who_eqb w w' then fst (switchover n f) else n
   | ESwRemote w' => if who_eqb w w' then fst (switchover n false) else n
+  | ETouch w' i =>
+      if who_eqb w w' then
+        match nth_error (queue_to w s) (i mod length (queue_to w s))%nat with
+        | Some m => set_pknown n (nonempty (h_id m))
+        | None => n
+        end
+      else n
   end.
 
 Lemma step_node v cs s e w : node_of w (fst (step v cs s e)) = step_node_fn v cs s e w.
 Proof.
-  unfold step, step_node_fn. destruct e as [w'|w'|w' i|w' i|w'|w' k d|w' f|w'].
+  unfold step, step_node_fn. destruct e as [w'|w'|w' i|w' i|w'|w' k d|w' f|w'|w' i].
   - destruct (sm_start (node_of w' s)) as [n t] eqn:E. cbn [fst]. rewrite node_of_set_node.
     destruct w, w'; cbn [who_eqb]; try reflexivity; now rewrite E.
   - cbn [fst]. now rewrite node_of_set_queue.
@@ -392,6 +399,10 @@ Proof.
     destruct w, w'; cbn [who_eqb]; try reflexivity; now rewrite E.
   - destruct (switchover (node_of w' s) false) as [n t] eqn:E. cbn [fst]. rewrite node_of_set_node.
     destruct w, w'; cbn [who_eqb]; try reflexivity; now rewrite E.
+  - destruct w, w'; cbn [who_eqb];
+      (destruct (nth_error _ _) as [m|]; [|reflexivity]);
+      destruct (h_req m); cbn [fst]; rewrite ?node_of_set_queue, ?node_of_set_node; cbn [who_eqb];
+      rewrite ?node_of_set_queue; reflexivity.
 Qed.
 
 (* ------------------------------------------------------------------ handlers, node level *)
@@ -470,57 +481,102 @@ Proof.
 Qed.
 
 (* ------------------------------------------------------------------ reachable nodes are well formed *)
-Definition wf_node (n : node) : bool :=
-  negb (sst_eqb (n_st n) Ready) && negb (sst_eqb (n_st n) StandbyAlone && n_pknown n).
+(* fs = fix_sa: with it STANDBY_ALONE may know its peer (a heartbeat for another group of the Manager, or
+   interleaved calls, can produce that) because handlePeerHeartbeat re-discovers from STANDBY_ALONE anyway *)
+Definition wf_node (fs : bool) (n : node) : bool :=
+  negb (sst_eqb (n_st n) Ready) && (fs || negb (sst_eqb (n_st n) StandbyAlone && n_pknown n)).
+
+Definition is_touch (e : ev) : bool := match e with ETouch _ _ => true | _ => false end.
+Definition no_touch (es : list ev) : bool := forallb (fun e => negb (is_touch e)) es.
 
 Lemma hb_core_wf v pre k st mst w :
-  negb (sst_eqb st Ready) && negb (sst_eqb st StandbyAlone && k) = true ->
+  negb (sst_eqb st Ready) && (fix_sa v || negb (sst_eqb st StandbyAlone && k)) = true ->
   let s' := hb_core v pre (negb k) st mst w in
   sst_eqb s' Ready = false /\ sst_eqb s' StandbyAlone = false.
 Proof.
-  destruct v as [fh fi ff fs fa]. destruct st, k; cbn; try discriminate; intros _;
-    destruct pre, fh, ff, fs, mst, w; cbn; auto.
+  destruct v as [fh fi ff fs fa]. destruct st, k, fs; cbn; try discriminate; intros _;
+    destruct pre, fh, ff, mst, w; cbn; auto.
 Qed.
 
 Lemma step_wf v cs s e w :
-  wf_node (node_of w s) = true -> wf_node (step_node_fn v cs s e w) = true.
+  fix_sa v = true \/ is_touch e = false ->
+  wf_node (fix_sa v) (node_of w s) = true -> wf_node (fix_sa v) (step_node_fn v cs s e w) = true.
 Proof.
-  intros H. unfold step_node_fn.
-  destruct e as [w'|w'|w' i|w' i|w'|w' k d|w' f|w']; try exact H; destruct (who_eqb w w'); try exact H.
+  intros Ht H. unfold step_node_fn.
+  destruct e as [w'|w'|w' i|w' i|w'|w' k d|w' f|w'|w' i]; try exact H; destruct (who_eqb w w'); try exact H.
   - destruct (start_facts (node_of w s)) as (_ & Hk & Hs). unfold wf_node in *. rewrite Hk, Hs.
     destruct (n_st (node_of w s)); cbn in *; auto.
   - destruct (nth_error _ _) as [m|]; [|exact H]. rewrite handle_hb_spec. unfold wf_node in *. cbn [n_st n_pknown].
     destruct (hb_core_wf v (c_preempt (cfg_of w cs)) (n_pknown (node_of w s)) (n_st (node_of w s)) (h_st m)
                 (wins_raw (c_id (cfg_of w cs)) (n_eff (node_of w s)) (h_prio m) (h_id m)) H) as [E1 E2].
-    cbn zeta in E1, E2. now rewrite E1, E2.
+    cbn zeta in E1, E2. rewrite E1, E2. cbn. now rewrite Bool.orb_true_r.
   - destruct (peer_lost_facts (node_of w s)) as (_ & Hk & Hs). unfold wf_node in *. rewrite Hk, Hs.
+    rewrite Bool.andb_false_r. cbn [negb]. rewrite Bool.orb_true_r, Bool.andb_true_r.
     destruct (n_st (node_of w s)); cbn in *; auto; try discriminate.
     destruct (0 <? n_cnt (node_of w s)); reflexivity.
   - destruct (if_facts v (cfg_of w cs) (node_of w s) k d) as (Hk & Hs & _). unfold wf_node in *. rewrite Hk, Hs.
-    destruct (tracked (cfg_of w cs) k && d && sst_eqb (n_st (node_of w s)) StandbyAlone); [reflexivity | exact H].
+    destruct (tracked (cfg_of w cs) k && d && sst_eqb (n_st (node_of w s)) StandbyAlone);
+      [cbn; now rewrite Bool.orb_true_r | exact H].
   - destruct (switchover_facts (node_of w s) f) as (_ & Hk & Hs). unfold wf_node in *. rewrite Hk, Hs.
-    destruct (n_st (node_of w s)), f; cbn in *; auto.
+    destruct (n_st (node_of w s)), f, (fix_sa v), (n_pknown (node_of w s)); cbn in *; auto.
   - destruct (switchover_facts (node_of w s) false) as (_ & Hk & Hs). unfold wf_node in *. rewrite Hk, Hs.
-    destruct (n_st (node_of w s)); cbn in *; auto.
+    destruct (n_st (node_of w s)), (fix_sa v), (n_pknown (node_of w s)); cbn in *; auto.
+  - destruct Ht as [Ht | Ht]; [|discriminate Ht].
+    destruct (nth_error _ _) as [m|]; [|exact H]. unfold wf_node in *. rewrite Ht in *. cbn [n_st set_pknown] in *.
+    cbn [orb] in *. exact H.
 Qed.
 
-Lemma run_wf v cs es w : wf_node (node_of w (run v cs (init_pair cs) es)) = true.
+Lemma run_wf v cs es w :
+  fix_sa v = true \/ no_touch es = true ->
+  wf_node (fix_sa v) (node_of w (run v cs (init_pair cs) es)) = true.
 Proof.
-  induction es as [|e es IH] using rev_ind.
-  - destruct w; reflexivity.
-  - rewrite run_snoc, step_node. apply step_wf, IH.
+  induction es as [|e es IH] using rev_ind; intros Ht.
+  - destruct w; cbn; now rewrite Bool.orb_true_r.
+  - rewrite run_snoc, step_node. apply step_wf.
+    + destruct Ht as [Ht|Ht]; [now left | right]. unfold no_touch in Ht. rewrite forallb_app in Ht.
+      apply andb_prop in Ht. destruct Ht as [_ Ht]. cbn in Ht. rewrite Bool.andb_true_r in Ht.
+      now apply Bool.negb_true_iff in Ht.
+    + apply IH. destruct Ht as [Ht|Ht]; [now left | right]. unfold no_touch in *. rewrite forallb_app in Ht.
+      apply andb_prop in Ht. tauto.
 Qed.
 
-(* READY is never observable between two events *)
+Lemma hb_core_not_ready v pre first st mst w : st <> Ready -> hb_core v pre first st mst w <> Ready.
+Proof.
+  destruct v as [fh fi ff fs fa]. intros H.
+  destruct st; try congruence; destruct first, pre, fh, ff, fs, mst, w; cbn; discriminate.
+Qed.
+
+Lemma coarse_not_ready v cs p e w :
+  n_st (node_of w p) <> Ready -> n_st (step_node_fn v cs p e w) <> Ready.
+Proof.
+  intros H. unfold step_node_fn.
+  destruct e as [w'|w'|w' i|w' i|w'|w' k d|w' f|w'|w' i]; try exact H; destruct (who_eqb w w'); try exact H.
+  - destruct (start_facts (node_of w p)) as (_ & _ & Hs). rewrite Hs. destruct (n_st (node_of w p)); congruence.
+  - destruct (nth_error _ _) as [m|]; [|exact H]. rewrite handle_hb_spec. cbn [n_st]. now apply hb_core_not_ready.
+  - destruct (peer_lost_facts (node_of w p)) as (_ & _ & Hs). rewrite Hs.
+    destruct (n_st (node_of w p)); try congruence. destruct (0 <? _); discriminate.
+  - destruct (if_facts v (cfg_of w cs) (node_of w p) k d) as (_ & Hs & _). rewrite Hs.
+    destruct (_ && _ && _); [discriminate | exact H].
+  - destruct (switchover_facts (node_of w p) f) as (_ & _ & Hs). rewrite Hs.
+    destruct (n_st (node_of w p)), f; congruence.
+  - destruct (switchover_facts (node_of w p) false) as (_ & _ & Hs). rewrite Hs.
+    destruct (n_st (node_of w p)); congruence.
+  - destruct (nth_error _ _) as [m|]; exact H.
+Qed.
+
+(* READY is never observable between two (atomic) calls: every variant, also with heartbeats for other groups *)
 Lemma ready_is_transient v cs es w : n_st (node_of w (run v cs (init_pair cs) es)) <> Ready.
 Proof.
-  pose proof (run_wf v cs es w) as H. unfold wf_node in H. intros E. rewrite E in H. discriminate H.
+  induction es as [|e es IH] using rev_ind.
+  - destruct w; cbn; discriminate.
+  - rewrite run_snoc, step_node. now apply coarse_not_ready.
 Qed.
 
 Lemma run_started_ok v cs es w :
+  fix_sa v = true \/ no_touch es = true ->
   n_st (node_of w (run v cs (init_pair cs) es)) <> Init -> n_ok v (node_of w (run v cs (init_pair cs) es)) = true.
 Proof.
-  pose proof (run_wf v cs es w) as H. unfold wf_node, n_ok, pre_ok, okn in *. intros Hi.
+  intros Ht. pose proof (run_wf v cs es w Ht) as H. unfold wf_node, n_ok, pre_ok, okn in *. intros Hi.
   destruct (fix_sa v), (n_st _); cbn in *; try congruence; auto.
 Qed.
 
@@ -706,7 +762,7 @@ Proof.
   - destruct w; cbn [run node_of init_pair p_a p_b cfg_of] in *; apply track_inv_init; destruct Hsm; lia.
   - rewrite run_snoc, step_node. set (s := run v cs (init_pair cs) es) in *.
     unfold step_node_fn.
-    destruct e as [w'|w'|w' i|w' i|w'|w' k d|w' f|w'].
+    destruct e as [w'|w'|w' i|w' i|w'|w' k d|w' f|w'|w' i].
     + apply track_inv_frame with (n := node_of w s); [discriminate| |exact IH].
       destruct (who_eqb w w'); [apply start_facts | unfold same_track; auto].
     + apply track_inv_frame with (n := node_of w s); [discriminate|unfold same_track; auto|exact IH].
@@ -725,6 +781,9 @@ Proof.
       destruct (who_eqb w w'); [apply switchover_facts | unfold same_track; auto].
     + apply track_inv_frame with (n := node_of w s); [discriminate| |exact IH].
       destruct (who_eqb w w'); [apply switchover_facts | unfold same_track; auto].
+    + apply track_inv_frame with (n := node_of w s); [discriminate| |exact IH].
+      destruct (who_eqb w w'); [|unfold same_track; auto].
+      destruct (nth_error _ _); unfold same_track; auto.
 Qed.
 
 Lemma effective_priority v cs w es :
@@ -768,7 +827,7 @@ Proof.
   rewrite step_node. intros Hst Hact.
   assert (Hna : is_active (n_st (node_of w s)) = false) by (destruct Hst as [E|E]; rewrite E; reflexivity).
   unfold step_node_fn in Hact. unfold promotion_cause.
-  destruct e as [w'|w'|w' i|w' i|w'|w' k d|w' f|w']; try congruence;
+  destruct e as [w'|w'|w' i|w' i|w'|w' k d|w' f|w'|w' i]; try congruence;
     (destruct (who_eqb w w') eqn:Ew; [apply who_eqb_true in Ew; subst w' | congruence]).
   - destruct (start_facts (node_of w s)) as (_ & _ & Hs). rewrite Hs in Hact.
     destruct Hst as [E|E]; rewrite E in Hact; discriminate Hact.
@@ -787,6 +846,7 @@ Proof.
     split; [reflexivity|]. intros E. rewrite E in Hact. destruct f; [reflexivity | discriminate Hact].
   - destruct (switchover_facts (node_of w s) false) as (_ & _ & Hs). rewrite Hs in Hact.
     split; [reflexivity|]. destruct Hst as [E|E]; [exact E|]. rewrite E in Hact. discriminate Hact.
+  - destruct (nth_error _ _); cbn [n_st set_pknown] in Hact; congruence.
 Qed.
 
 (* a STANDBY node that loses its peer: STANDBY_ALONE, or ACTIVE_SOLO when a tracked interface is down *)
@@ -837,15 +897,15 @@ Lemma no_self_promotion_run v cs es e w :
 Proof. intros s. apply promotion_justified. Qed.
 
 Lemma converges_run v cs es w1 w2 w3 :
-  fix_hb v = true -> ids_ok cs ->
+  fix_hb v = true -> ids_ok cs -> fix_sa v = true \/ no_touch es = true ->
   let s := run v cs (init_pair cs) es in
   n_st (p_a s) <> Init -> n_st (p_b s) <> Init ->
   let r := xchgs v cs [w1; w2; w3] (p_a s, p_b s) in
   pair_one_active r = true /\ absn (xchg v cs A r) = absn r /\ absn (xchg v cs B r) = absn r.
 Proof.
-  intros Hf Hne s Ha Hb. apply converges; auto.
-  - apply (run_started_ok v cs es A Ha).
-  - apply (run_started_ok v cs es B Hb).
+  intros Hf Hne Ht s Ha Hb. apply converges; auto.
+  - apply (run_started_ok v cs es A Ht Ha).
+  - apply (run_started_ok v cs es B Ht Hb).
 Qed.
 
 (* ------------------------------------------------------------------ stale views *)
